@@ -23,6 +23,46 @@ MASKED = "uncategorized-change-masked-by-harmless-category-in-default-mode"
 FNSUP = "function-or-variable-suppression-not-honoured-by-leaf-mode"
 
 
+EMPTYLEAF = "leaf-mode-lists-type-whose-member-changes-are-all-suppressed"
+MERGED = "leaf-report-merges-same-named-types-of-different-translation-units"
+
+
+def leaf_explanations_all_empty(text):
+    if not re.search(r"Removed/Changed/Added functions summary: 0 Removed, 0 Changed(?: \(\d+ filtered out\))?, 0 Added", text) or \
+            not re.search(r"Removed/Changed/Added variables summary: 0 Removed, 0 Changed(?: \(\d+ filtered out\))?, 0 Added", text):
+        return False
+    blocks = re.split(r"\n(?='[^\n]*' changed:\n)", text)[1:]
+    if not blocks:
+        return False
+    for b in blocks:
+        lines = [l.strip() for l in b.split("\n")[1:] if l.strip()]
+        k = next((i for i, l in enumerate(lines) if re.match(r"^(one|\d+) impacted interfaces?:$", l)), len(lines))
+        body = [l for l in lines[:k] if l not in ("type size hasn't changed", "there are data member changes:")]
+        if body:
+            return False
+    return True
+
+
+def same_named_private_types_merged(m, m2, iface, leaf_text):
+    """The leaf report keys changed types by name: of two *different* types of the same name (one per translation unit) that
+    both changed it shows one, so the interfaces of the other are missing.  Recognised from the model: the missing interface
+    reaches a TU-private type whose C-level name another TU-private type shares, both differ between the two versions, and the
+    leaf report does show a changed type of that name."""
+    idx1, idx2 = M.type_index(m), M.type_index(m2)
+    f = next((i for k, i in M.interfaces(m) if i["name"] == iface), None)
+    if f is None:
+        return False
+    for n in M.iface_reach(m, f):
+        t = idx1.get(n)
+        if not t or not t.get("cname") or idx2.get(n) == t:
+            continue
+        for o in m["types"]:
+            if o is not t and o.get("cname") == t["cname"] and o.get("where") != t.get("where") and idx2.get(o["name"]) != o \
+                    and re.search(r"'(?:enum|struct|union|class) %s(?: at [^']*)?' changed:" % re.escape(t["cname"]), leaf_text):
+                return True
+    return False
+
+
 @st.composite
 def strategy_(draw, tier):
     c = draw(multi.multi_pair(tier, lo=1, hi=5))
@@ -101,6 +141,14 @@ def run_case(case, cx):
                     return
             except R.ParseError:
                 pass
+        # Fourth recorded defect: under a [suppress_type] section the leaf reporter still lists a type whose member changes
+        # are all suppressed -- "'union un6' changed: ... there are data member changes:" followed by no member at all --
+        # and exits 4, while the default mode filters the whole thing.  Recognised from the leaf report itself: nothing
+        # removed / added / changed among functions and variables, and every changed-type block is such an empty explanation.
+        if (leaf.rc & ~dflt.rc) and not (dflt.rc & ~leaf.rc) and case["suppr"] and "[suppress_type]" in case["suppr"] \
+                and leaf_explanations_all_empty(leaf.text()):
+            cx.violation(EMPTYLEAF, det)
+            return
         cx.violation("exit-status-differs:default=%d,leaf=%d" % (dflt.rc, leaf.rc), det)
         return
     rep = pairs.parse_or_oracle_error(cx, dflt)
@@ -113,6 +161,9 @@ def run_case(case, cx):
         if not re.search(r"(?<![A-Za-z0-9_])" + re.escape(hit) + r"(?![A-Za-z0-9_])", ltxt):
             if pairs.subtree_has_nothing_reportable(cx, b1, b2, opts, hit):
                 cx.violation(SPURIOUS, dict(det, interface=hit))
+                return
+            if same_named_private_types_merged(m, m2, hit, ltxt):
+                cx.violation(MERGED, dict(det, interface=hit))
                 return
             cx.violation("changed-interface-missing-from-leaf-report", dict(det, interface=hit))
             return
